@@ -8,7 +8,7 @@ from sa import wiring
 from sa.callgraph import STRONG_KINDS, PRECISE
 from sa.dataflow import UNKNOWN
 from sa.issues import check_no_dropped_issues
-from sa.model import call_name, loc, walk_no_nested
+from sa.model import call_name, loc, walk_no_nested, norm
 from sa.registry import get_registry
 
 LEVEL_TEXT = ("Static structural proof of necessary conditions, not of the property: for each of the 45 internal "
@@ -16,7 +16,7 @@ LEVEL_TEXT = ("Static structural proof of necessary conditions, not of the prope
               "format_error* site in the closure binds to its message function through the decorator wrapper; no "
               "issue list returned inside the validator closure is discarded. Correctness of the rule predicates "
               "themselves (valid => no error; one fault => that code) is NOT decided.")
-LEVEL_EXTRA = 'Added after the seeded evaluation: (R1.4) the delimiter scan decides on the blank-stripped token text; (R1.5) no early exit skips a string-level check. (R1.6) no first/last-element access on a possibly empty list in the validators (validation reports, it does not raise IndexError). (R1.7) every setting a validator constructor stores on the object is read somewhere (one frozen exception). (R1.8) a def-tag search over a whole annotation in the validators is recursive; R1.3 also reports an issue accumulator that is plainly re-assigned before it was read.'
+LEVEL_EXTRA = 'Added after the seeded evaluation: (R1.4) the delimiter scan decides on the blank-stripped token text; (R1.5) no early exit skips a string-level check. (R1.6) no first/last-element access on a possibly empty list in the validators (validation reports, it does not raise IndexError). (R1.7) every setting a validator constructor stores on the object is read somewhere (one frozen exception). (R1.8) a def-tag search over a whole annotation in the validators is recursive; R1.3 also reports an issue accumulator that is plainly re-assigned before it was read. (R1.9) tag objects are not compared with DefTagNames keys directly.'
 
 
 def signature_rule(ctx, rule, funcs, floor_sites):
@@ -164,3 +164,49 @@ def run(ctx):
                       "group — `(Def/Undeclared, Blue)` — is never looked at, so the violation is reported only at the top level",
                       desc="%s: whole-annotation search is recursive" % f.short)
     ctx.floor("R1.8", "whole-annotation def searches in the validators", n_rec, 2)
+
+    # ---------------- R1.9: which kind a tag is, is decided on its short base tag, never by comparing the tag object with a name
+    ctx.rule("R1.9", "tag objects drawn from children/tag lists are not compared (==, !=, in) with DefTagNames keys directly")
+    n_kind = 0
+    for f in prog.functions.values():
+        if not (f.module.name.startswith("hed.validator") or f.module.name in ("hed.models.definition_dict", "hed.models.df_util")):
+            continue
+        pm9 = {id(ch): p_ for p_ in ast.walk(f.node) for ch in ast.iter_child_nodes(p_)}
+
+        def binding_iter(name_node):
+            """The iterable of the nearest enclosing comprehension / for loop that binds this name."""
+            cur = name_node
+            while id(cur) in pm9:
+                par = pm9[id(cur)]
+                if isinstance(par, (ast.ListComp, ast.SetComp, ast.GeneratorExp, ast.DictComp)):
+                    for g in par.generators:
+                        if isinstance(g.target, ast.Name) and g.target.id == name_node.id:
+                            return g.iter
+                if isinstance(par, ast.For) and isinstance(par.target, ast.Name) and par.target.id == name_node.id \
+                        and any(cur is b or any(cur is y for y in ast.walk(b)) for b in par.body):
+                    return par.iter
+                cur = par
+            return None
+
+        def is_obj(name_node):
+            it = binding_iter(name_node)
+            if it is None:
+                return False
+            txt = norm(it)
+            return any(k in txt for k in ("children", "get_all_tags", ".tags()", "get_all_groups", ".groups()")) or \
+                (isinstance(it, ast.Name) and it.id in ("children", "tags", "groups"))
+        for c in ast.walk(f.node):
+            if not (isinstance(c, ast.Compare) and len(c.ops) == 1 and isinstance(c.ops[0], (ast.Eq, ast.NotEq, ast.In, ast.NotIn))):
+                continue
+            sides = [c.left, c.comparators[0]]
+            if not any("DefTagNames." in norm(s_) for s_ in sides):
+                continue
+            n_kind += 1
+            other = [s_ for s_ in sides if "DefTagNames." not in norm(s_)]
+            bad = [s_ for s_ in other if isinstance(s_, ast.Name) and is_obj(s_)]
+            ctx.saw(f)
+            ctx.check(not bad, "R1.9", f.qualname, c, loc(f, c),
+                      "a tag object is compared with a tag name: HedTag equality with a string compares the whole tag text, so "
+                      "`Delay/3 s` is not recognised as a Delay tag and the group is reported for its extra child",
+                      desc="%s: tag kind tested on a name attribute" % f.short)
+    ctx.floor("R1.9", "comparisons with DefTagNames keys in the validators", n_kind, 10)
